@@ -184,7 +184,7 @@ func (b *StscBox) GetSampleDescriptionID(chunkNr int) uint32 {
 	if b.singleSampleDescriptionID != 0 {
 		return b.singleSampleDescriptionID
 	}
-	return b.SampleDescriptionID[chunkNr-1]
+	return b.SampleDescriptionID[b.findEntryNrForChunkNr(uint32(chunkNr))]
 }
 
 // SetSingleSampleDescriptionID - use this for efficiency if all samples have same sample description
